@@ -746,6 +746,13 @@ func handleConnectionBindRequest(req Request, stunMsg *stun.Message) error {
 		stun.NewType(stun.MethodConnectionBind, stun.ClassSuccessResponse),
 		connectionID,
 	)...); err != nil {
+		// The peer connection was claimed by this request and cannot be bound
+		// again: release it instead of leaving it open with nothing attached.
+		if closeErr := tcpConn.Close(); closeErr != nil {
+			req.Log.Debugf("Close tcpConn error: %s", closeErr)
+		}
+		req.AllocationManager.RemoveTCPConnection(connectionID)
+
 		return err
 	}
 
